@@ -1031,6 +1031,17 @@ func (c *evalCtx) call(x *ECall) Term {
 			c.fail("unknown type %q", st.V)
 		}
 		return Term{fmt.Sprintf("(i-val %s)", a.S), w.sortOf(gt)}
+	case "has":
+		// has(m, k): key k is in map m
+		m := c.eval(x.Args[0])
+		if m.Sort.Kind != KMap {
+			c.fail("has(map, key)")
+		}
+		mt := m.Sort.Go.Underlying().(*types.Map)
+		ks, vs := w.sortOf(mt.Key()), w.sortOf(mt.Elem())
+		hd, _ := w.mapHeaps(ks, vs)
+		k := c.coerce(c.eval(x.Args[1]), ks)
+		return Term{fmt.Sprintf("(and (not (= %s 0)) (select (select %s %s) %s))", m.S, w.heapSym(c.st, hd), m.S, k.S), sortBool}
 	case "f64":
 		// f64(literal): the float64 nearest to the literal, as an exact rational (what the Go
 		// constant denotes at run time)
